@@ -241,7 +241,7 @@ def execute(spec, w, ctx):
                 opens = [e[4] for e in out0["fs_events"] if genops.is_write_open(e)]
                 if opens:
                     lo = opens[0]
-            cfg["interrupt"] = {"at": lo + int(intr["frac"] * max(0, total - lo)), "exc": intr.get("exc")}
+            cfg["interrupt"] = {"at": common.interrupt_at(intr, out0, lo), "exc": intr.get("exc")}
             if op.get("kill"):
                 cfg["kill"] = op["kill"]
         out, before, after, changed, wopens = genops.run_gen(w, op, cfg)
